@@ -28,7 +28,7 @@ from pyvc.concretize import Decoder  # noqa: E402
 from pyvc.contracts import REG, Contract, verify_function  # noqa: E402
 from pyvc.source import Repo  # noqa: E402
 
-CONTRACT_MODULES = ["contracts.validation", "contracts.declaration"]
+CONTRACT_MODULES = ["contracts.validation", "contracts.declaration", "contracts.formatting"]
 NATIVE_PY = os.environ.get("PYVC_NATIVE_PY", "/venv/bin/python")
 REPLAY_DIR = os.path.join(HERE, "replays")
 EVID_DIR = os.path.join(HERE, "evidence")
@@ -45,6 +45,8 @@ def load_all() -> Tuple[Repo, M.ClassTable]:
         ct = M.ClassTable(repo)
         for m in CONTRACT_MODULES:
             importlib.import_module(m)
+        import contracts.spec as _spec
+        _spec.CT = ct
         _G["repo"], _G["ct"] = repo, ct
     return _G["repo"], _G["ct"]
 
@@ -95,16 +97,53 @@ def work(task: Tuple[str, str, str, List[str], str]) -> Dict[str, Any]:
                    exec_s=round(fr.exec_s, 3), n_obligations=len(fr.obligations))
         ex = fr.ex
         base = ex.base + ex.extra_axioms
-        for ob in fr.obligations:
-            if ob.kind != "cover" and ob.prop_ids and prop not in ob.prop_ids:
-                continue
+        todo = [ob for ob in fr.obligations
+                if ob.kind == "cover" or not ob.prop_ids or prop in ob.prop_ids]
+
+        def do(ob) -> Dict[str, Any]:
             v = solve.discharge(ob, base, second_opinion=(tier == "thorough"))
             rec = {"name": v.name, "kind": v.kind, "status": v.status, "backend": v.backend,
                    "time_s": round(v.time_s, 3), "text": v.text, "props": list(v.prop_ids),
                    "reason": v.reason, "solver_output": v.solver_output}
             if v.status in (solve.REFUTED, solve.CANDIDATE) and v.model is not None:
                 rec["replays"] = try_replays(ex, ct, con, fr, ob, v, prop)
-            out["verdicts"].append(rec)
+            return rec
+
+        K = 1 if len(todo) < 24 else min(8, len(todo) // 12)
+        if K <= 1:
+            out["verdicts"] = [do(ob) for ob in todo]
+        else:
+            # shard the obligations over forked children (z3 state is copied by fork)
+            tmpd = tempfile.mkdtemp(prefix="pyvc_")
+            pids = []
+            for k in range(K):
+                pid = os.fork()
+                if pid == 0:
+                    code = 0
+                    try:
+                        recs = [(i, do(ob)) for i, ob in enumerate(todo) if i % K == k]
+                        with open(os.path.join(tmpd, f"{k}.json"), "w") as f:
+                            json.dump(recs, f, default=str)
+                    except BaseException:
+                        with open(os.path.join(tmpd, f"{k}.err"), "w") as f:
+                            f.write(traceback.format_exc())
+                        code = 1
+                    os._exit(code)
+                pids.append(pid)
+            for pid in pids:
+                os.waitpid(pid, 0)
+            allrecs = []
+            for k in range(K):
+                fp = os.path.join(tmpd, f"{k}.json")
+                if os.path.exists(fp):
+                    allrecs += json.load(open(fp))
+                else:
+                    ep = os.path.join(tmpd, f"{k}.err")
+                    raise RuntimeError("shard failed: " + (open(ep).read() if os.path.exists(ep) else "no output"))
+            allrecs.sort(key=lambda t: t[0])
+            out["verdicts"] = [r for _, r in allrecs]
+            import shutil
+            shutil.rmtree(tmpd, ignore_errors=True)
     except Exception:
         out["error"] = traceback.format_exc()
     out["wall_s"] = round(time.time() - t0, 3)
